@@ -550,7 +550,7 @@ func init() {
 		Rule: "scenario s = k mod S (S = 480 quick, 6000 thorough), kind = s mod 15: help with pre-populated map options (3-12 keys) as defaults, full help, man page (SOURCE_DATE_EPOCH fixed), INI output of maps under random write options, INI input setting one option in 2-4 sections (preamble, [Application Options], the group's section, a case variant) plus callbacks spread over sections, three unknown sections at once, required-flag list, command list / unknown command, completion list, invalid-choice message, map default from an environment variable with 10 entries, the duplicated-flag error of a declaration with several independent name clashes, INI output and Commands() order with and without an earlier help / man page / command diagnosis on the same parser (sub-commands declared in non-alphabetical order). Each scenario is evaluated 256 times on fresh parsers in one process (SHA-256 of every observable: bytes written, Error.Message, completion items, value snapshot, call log) and again in 2 (quick) / 4 (thorough) different processes whose digests the parent compares. " +
 			"A canary map ranged once per evaluation counts the distinct iteration orders the runtime actually produced. distinct = (kind, #maps, #options, #commands, output size).",
 		Assumptions: []string{"only iteration-order non-determinism that the Go runtime actually exhibits is reachable; the library has no goroutines, so there is no scheduler to explore"},
-		Technique:   "runtime repetition monitor: digest equality of all observables across 256 in-process evaluations and across separate processes, with a map-order canary; race detector on 16 concurrent goroutines (thorough)",
+		Technique:   "runtime repetition monitor: digest equality of all observables across 256 in-process evaluations and across separate processes, with a map-order canary; race detector on 16 concurrent goroutines (thorough); multi-step histories on one parser with direct oracles",
 		LevelText:   "Exploration by repetition: every scenario puts >= 2 entries into the maps the library ranges over and is re-evaluated 256x in-process and 2-4x across processes; with the measured ~15% minority-order probability a dependence on map order escapes with probability < 10^-18 per scenario.",
 		LevelNote:   "Trusted: SHA-256 digest comparison; the canary's report that iteration order did vary.",
 		DesignRef:   "§4 C15",
